@@ -57,6 +57,11 @@ def gen(rng, tier):
     }
     pattern = [rng.choice(['refuse', 'refuse', 'ns_refuse', 'accept'])
                for _ in range(rng.randrange(0, 8))] + ['accept']
+    if rng.random() < 0.3 and len(pattern) > 1:
+        # an attempt that gets as far as the server's CONNECT replies and
+        # then loses its transport while the application's connect handler
+        # is still running: a failed attempt like any other
+        pattern[rng.randrange(len(pattern) - 1)] = 'lost_in_handler'
     return {'cfg': cfg, 'pattern': pattern}
 
 
@@ -165,12 +170,29 @@ def _run(case, cfg, w):
                      reconnection_delay_max=cfg['delay_max'],
                      randomization_factor=cfg['rf'])
 
+    cur_outcome = [None]
+
+    def lose_now():
+        live = [cn for cn in w.net.conns if not cn.severed]
+        if live:
+            rec.count('fault.loss_in_connect_handler')
+            live[-1].sever(0.0, 0.0)
+
     def cplan(label, args, ev):
+        if label[3] == 'connect' and cur_outcome[0] == 'lost_in_handler':
+            cur_outcome[0] = 'losing'
+            w.after(0.02, lose_now)
+            return [('pause', 0.05), ('ret', None)]
+        if label[3] == 'connect' and cur_outcome[0] == 'losing':
+            return [('pause', 0.05), ('ret', None)]
         return [('ret', None)]
+    slow_handlers = 'lost_in_handler' in case['pattern']
     for ns in cfg['nss']:
         for evn in ('connect', 'disconnect', 'connect_error'):
             c.on(evn, w.make_handler(('c', 'func', ns, evn), cplan,
-                                     coroutine=False), namespace=ns)
+                                     coroutine=slow_handlers and
+                                     w.mode == 'async' and evn == 'connect'),
+                 namespace=ns)
     auth_calls = []
     if cfg['auth'] == 'callable':
         def auth():
@@ -220,6 +242,7 @@ def _run(case, cfg, w):
         state['k'] += 1
         out = pattern[k] if k < len(pattern) else 'accept'
         rec.add('attempt', k=k + 1, outcome=out)
+        cur_outcome[0] = out
         if out == 'ns_refuse':
             ns_behaviour['mode'] = 'refuse'
         else:
@@ -417,6 +440,10 @@ def _run(case, cfg, w):
         ok_exits = [ex for ex in exits.values() if ex['ok']]
         cons = [e for e in rec.events if e['kind'] == 'h_enter'
                 and e['label'][0] == 'c' and e['label'][3] == 'connect']
+        if slow_handlers:
+            # (the handlers also ran in the attempt that was lost)
+            cons = [e for e in cons if any(
+                ex['enter'] < e['seq'] < ex['seq'] for ex in ok_exits)]
         if len(cons) != len(ok_exits) * len(cfg['nss']):
             v.add('connect_handlers_after_reconnect', '%d successful '
                   'connects x %d namespaces, %d connect handler runs'
